@@ -53,3 +53,9 @@ Definition eer_agree (tol_t tol_e : Q) (s : scores) (t e : Q) : bool :=
   | Ret (t', e') => Qabs_le t' t tol_t && Qabs_le e' e tol_e
   | Raise => false
   end.
+
+(* ---------- AUC ---------- *)
+From SA Require Export Model.Auc.
+Definition auc64 := auc succ64 pred64.
+Definition auc_agree (tol : Q) (s : scores) (lower upper : Q) (xa ya : axis) (impl : Q) : bool :=
+  Qabs_le (auc64 s lower upper xa ya) impl tol.
